@@ -7,11 +7,20 @@ from .vecgen import Cfg
 def _vector_prop(prop):
     def fn(report, tier):
         vecprops.check_vector_property(prop, report, tier)
+        if prop in ("C02", "C06"):
+            # the same ledgers on the sets (instrumented elements / ledger allocators of the set driver)
+            from . import setprops
+            vec_cov = dict(report.coverage)
+            cov = setprops.run_oracles(prop, tier, report)
+            report.coverage = vec_cov
+            report.coverage["sets"] = {k: cov[k] for k in ("evaluations", "histories", "distinct_nontrivial", "configurations", "oracle_violations_total")}
+            report.coverage["evaluations"] += cov["evaluations"]
+            report.coverage["distinct_nontrivial"] += cov["distinct_nontrivial"]
     return fn
 
 
 REGISTRY = {}
-for _p in ("C01", "C08"):
+for _p in ("C01", "C02", "C05", "C06", "C07", "C08", "C10"):
     REGISTRY[_p] = _vector_prop(_p)
 
 
